@@ -101,6 +101,7 @@ func (w *c10World) restored() string {
 	if err != nil {
 		return "OPENERR"
 	}
+	defer closeDB(d)
 	agents := d.AgentAll()
 	ids := map[int]bool{}
 	var as, ls, dangling []string
